@@ -2,6 +2,7 @@ package sio
 
 import (
 	"reflect"
+	"time"
 
 	"github.com/karagenc/socket.io-go/internal/sync"
 
@@ -22,6 +23,8 @@ type (
 		id     uint64
 		header *parser.PacketHeader
 		v      []any
+		// The timeout the emit asked for (Timeout(...).Emit); 0 = the socket's AckTimeout.
+		timeout time.Duration
 
 		mu       *sync.Mutex
 		tryCount int
@@ -39,7 +42,7 @@ func newClientPacketQueue(socket *clientSocket) *clientPacketQueue {
 	}
 }
 
-func (pq *clientPacketQueue) addToQueue(header *parser.PacketHeader, v []any) {
+func (pq *clientPacketQueue) addToQueue(header *parser.PacketHeader, v []any, timeout time.Duration) {
 	haveAck := false
 	f := v[len(v)-1]
 	rv := reflect.ValueOf(f)
@@ -50,9 +53,10 @@ func (pq *clientPacketQueue) addToQueue(header *parser.PacketHeader, v []any) {
 	}
 
 	packet := &queuedPacket{
-		id:     pq.nextSeq(),
-		header: header,
-		mu:     new(sync.Mutex),
+		id:      pq.nextSeq(),
+		header:  header,
+		mu:      new(sync.Mutex),
+		timeout: timeout,
 	}
 
 	replacementAck := func(args []reflect.Value) (results []reflect.Value) {
@@ -143,7 +147,7 @@ func (pq *clientPacketQueue) drainQueue(force bool) {
 	packet.mu.Unlock()
 
 	pq.debug.Log("Sending packet with ID", packet.id, "try", tryCount)
-	go pq.socket.emit("", 0, false, true, packet.v...)
+	go pq.socket.emit("", packet.timeout, false, true, packet.v...)
 }
 
 func (pq *clientPacketQueue) nextSeq() uint64 {
